@@ -182,6 +182,30 @@ func (e *HDWrap) Unwrap() error       { return e.C }
 func (e *HDWrap) ErrorHint() string   { return e.Hint }
 func (e *HDWrap) ErrorDetail() string { return e.Detail }
 
+// KeyMarkWrap: a third-party wrapper that extends its type key
+// (errbase.TypeKeyMarker), as the library's own domain layer does.
+type KeyMarkWrap struct {
+	C        error
+	Msg, Key string
+}
+
+func (e *KeyMarkWrap) Error() string          { return e.Msg + ": " + e.C.Error() }
+func (e *KeyMarkWrap) Unwrap() error          { return e.C }
+func (e *KeyMarkWrap) ErrorKeyMarker() string { return e.Key }
+
+// SafeMsgWrap: a wrapper that declares its message safe the old way
+// (redact.SafeMessager), has no Format method, and whose message replaces
+// its cause's. Never at the root of a tree (gen.Spec.NoRoot): the redact
+// package itself short-cuts a SafeMessager that is handed to it directly.
+type SafeMsgWrap struct {
+	C   error
+	Msg string
+}
+
+func (e *SafeMsgWrap) Error() string       { return e.Msg }
+func (e *SafeMsgWrap) Unwrap() error       { return e.C }
+func (e *SafeMsgWrap) SafeMessage() string { return e.Msg }
+
 // NCWrap: a VALUE-typed wrapper that is not comparable (slice field).
 type NCWrap struct {
 	C   error
